@@ -160,6 +160,29 @@ fn check_offsets(p: &rpm::Package, o: &mut Outcome, stage: &str) {
     }
     let mut t = Trickle(vec![]);
     let tr = panics::catch(|| p.write(&mut t));
+    // ... and out of write_file, whatever already lies at and next to the destination (an older,
+    // larger file of the same name; left-overs of interrupted writes)
+    if let Ok(Ok(v)) = &r {
+        if fnv1a(&v.0) % 16 == 0 {
+            o.label("write-file-next-to-leftovers");
+            let dir = crate::gen::builder::TempDir::new("c16");
+            let dest = dir.0.join("out.rpm");
+            let junk = vec![0xaau8; v.0.len() + 4096];
+            for n in ["out.rpm", "out.rpm.tmp", "out.tmp", ".out.rpm.tmp", "out.rpm.part", "out.rpm~", "out.rpm.new"] {
+                let _ = std::fs::write(dir.0.join(n), &junk);
+            }
+            match panics::catch(|| p.write_file(&dest)) {
+                Ok(Ok(())) => {
+                    let got = std::fs::read(&dest).unwrap_or_default();
+                    if got != v.0 {
+                        o.fail("bytes-depend-on-sink", format!("{stage}: write_file next to left-over files produced {} bytes, write() gives {} ({})", got.len(), v.0.len(), super::common::first_diff(&got, &v.0)));
+                    }
+                }
+                Ok(Err(e)) => o.fail("write-error", format!("{stage}: write_file: {e}")),
+                Err(pn) => o.fail("offsets-panic", format!("{stage}: write_file: {pn}")),
+            }
+        }
+    }
     let (w, off) = match r {
         Ok(Ok(v)) => {
             if !matches!(tr, Ok(Ok(()))) || t.0 != v.0 {
